@@ -1771,7 +1771,7 @@ func runOrder(c *Check, rule string, e *orderEngine, sel func(*ssa.Function) boo
 			key := fmt.Sprintf("%s|range %s", fnName(f), rangeDesc(l.rng.X))
 			sinks := e.classify(l)
 			if len(sinks) == 0 {
-				c.Okf(rule, key, p.pos(l.rng.Pos()), "no order-sensitive effect is reachable from this map iteration").LocalSeed = loopSeed(l)
+				c.Okf(rule, key, p.pos(l.rng.Pos()), "no order-sensitive effect is reachable from this map iteration").setLocal(loopSeed(l), loopSize(l))
 				continue
 			}
 			nFlag++
@@ -1783,7 +1783,7 @@ func runOrder(c *Check, rule string, e *orderEngine, sel func(*ssa.Function) boo
 				}
 				w = append(w, fmt.Sprintf("%s: %s", p.pos(s.ins.Pos()), s.what))
 			}
-			c.Ob(rule, key, p.pos(l.rng.Pos()), Flag, "map iteration order reaches an order-sensitive effect: "+sinks[0].what, w...).LocalSeed = loopSeed(l)
+			c.Ob(rule, key, p.pos(l.rng.Pos()), Flag, "map iteration order reaches an order-sensitive effect: "+sinks[0].what, w...).setLocal(loopSeed(l), loopSize(l))
 		}
 	}
 	// reflected map keys behave like a map iteration: evaluate them before the
@@ -2108,4 +2108,12 @@ func loopSeed(l *mapLoop) string {
 		blocks = append(blocks, b)
 	}
 	return "loop" + fingerprintBlocks(blocks)
+}
+
+func loopSize(l *mapLoop) int {
+	n := 0
+	for b := range l.body {
+		n += len(b.Instrs)
+	}
+	return n
 }
